@@ -65,6 +65,11 @@ package seqio
 //@   requires 0 <= n
 //@   ensures 0 <= olen(n) && olen(n) <= 2*n + 12
 
+//@ lemma olenMonoLe(a, b int)
+//@   prop C16
+//@   requires 0 <= a && a <= b
+//@   ensures olen(a) <= olen(b)
+
 //@ lemma olenMonotone(a, b int)
 //@   prop C16
 //@   requires 0 <= a && a < b
@@ -196,19 +201,137 @@ func lemmaOriginRoundTrip(p []byte) ([]byte, int) {
 //@   requires !isnil(state) && !isnil(result) && !isnil(gb)
 //@ func genbankReferenceParser$1(state *pars.State, result *pars.Result) (err error)
 //@   prop C07
-//@   requires !isnil(state) && !isnil(result) && !isnil(gb)
+//@   requires !isnil(state) && !isnil(result) && !isnil(gb) && 0 <= depth
 //@ func genbankContigParser$1(state *pars.State, result *pars.Result) (err error)
 //@   prop C07
 //@   requires !isnil(state) && !isnil(result) && !isnil(gb)
+// qlineOK(q, i, n, e): byte e of the line token q is what the layout allows at offset olen(i)+e.
+//@ spec macro qlineOK(q []byte, i int, n int, e int) bool =
+//@   ite(isIdx(olen(i)+e), int(q[e]) == idxVal(olen(i)+e), ite(isNl(olen(i)+e, n), false, ite(isSp(olen(i)+e, n), q[e] == ' ', isBaseCharacter(q[e]))))
+
+// The line-by-line reader: never indexes outside a line, and what it accepts and returns is a
+// layout block of the declared length (the same predicate the fast validator decides).
 //@ func slowGenBankOriginParser$1(state *pars.State, result *pars.Result) (err error)
-//@   prop C07
-//@   requires !isnil(state) && !isnil(result)
+//@   prop C07 C16
+//@   requires !isnil(state) && !isnil(result) && 0 <= length && length < 999999940
+//@   use olenZero(0)
+//@   use olenBound(length)
+//@   ensures accepted: isnil(err) ==> len(result.Token) == olen(length) && (forall b in 0..olen(length): olayOK(result.Token, length, b))
+//@   loop 1: invariant i%60 == 0 && 0 <= i && i <= length+59 && offset == olen(min(i, length)) && fresh(p) && len(p) == olen(length) && offset <= len(p)
+//@   loop 1: invariant forall b in 0..offset: olayOK(p, length, b)
+//@   loop 1: use forall b: posIndex(i, b, length)
+//@   loop 1: use posIndex(i, olen(i), length)
+//@   loop 1: use posSpace(i, 0, length)
+//@   loop 1: use posNewline(i, length)
+//@   loop 1: decreases length + 60 - i
+//@   loop 2: invariant j%10 == 0 && 0 <= j && j <= 60 && i < length && 0 <= extent && extent <= len(q) && fresh(p) && len(p) == olen(length)
+//@   loop 2: invariant olen(i) + extent == ite(j == 0, olen(i) + 9, ite(i+j <= length, olen(i) + 9 + 11*(j/10), olen(length) - 1)) && olen(i) + extent < len(p)
+//@   loop 2: invariant j > 0 ==> olen(i) + extent == olen(min(i+j, length)) - 1
+//@   loop 2: invariant forall e in 0..extent: qlineOK(q, i, length, e)
+//@   loop 2: invariant forall b in 0..offset: olayOK(p, length, b)
+//@   loop 2: use posSpace(i, j, length)
+//@   loop 2: use posGroupEnd(i, j, length)
+//@   loop 2: use olenMonoLe(min(i+j+10, length), length)
+//@   loop 2: decreases 60 - j
+//@   loop 3: invariant 0 <= k && k <= 10 && i+j+k <= length && i+j < length && j < 60 && olen(i) + extent == opos(i+j) + k && 0 <= extent && extent <= len(q)
+//@   loop 3: invariant forall e in 0..extent: qlineOK(q, i, length, e)
+//@   loop 3: invariant forall b in 0..offset: olayOK(p, length, b)
+//@   loop 3: use posResidue(i+j, k, length)
+//@   loop 3: decreases 10 - k
+// The ORIGIN field reader: fast path when the next olen(length) bytes validate, else line by
+// line; either way a record is accepted only with a layout block of the declared length.
 //@ func makeGenbankOriginParser$2(state *pars.State, result *pars.Result) (err error)
-//@   prop C07
-//@   requires !isnil(state) && !isnil(result) && !isnil(gb)
+//@   prop C07 C16
+//@   requires !isnil(state) && !isnil(result) && !isnil(gb) && 0 <= length && length < 999999940
+//@   use olenBound(length)
+//@   ensures accepted: isnil(err) ==> !isnil(gb.Origin) && !gb.Origin.Parsed && len(gb.Origin.Buffer) == olen(length) &&
+//@      (forall b in 0..olen(length): olayOK(gb.Origin.Buffer, length, b))
 //@ func genbankDefinitionParser$1(result *pars.Result) (err error)
 //@   prop C07
 //@   requires !isnil(result) && !isnil(gb)
+// Classes of byte offsets in a block of n residues (definitions hidden from the loop proofs,
+// which use the position lemmas below).
+//@ spec opaque isIdx(b int) bool = b%76 < 9
+//@ spec opaque idxVal(b int) int = dig9(60*(b/76)+1, b%76)
+//@ spec opaque isNl(b int, n int) bool = b%76 >= 9 && (b%76 == 75 || b == olen(n)-1)
+//@ spec opaque isSp(b int, n int) bool = b%76 >= 9 && !(b%76 == 75 || b == olen(n)-1) && (b%76-9)%11 == 0
+
+// olayOK(buf, n, b): byte b of buf is what the ORIGIN layout of n residues allows there:
+// the line index in columns 0..8, "\n" at the end of each line, " " before each group of
+// ten, a printable residue character everywhere else.
+//@ spec macro olayOK(buf []byte, n int, b int) bool =
+//@   ite(isIdx(b), int(buf[b]) == idxVal(b), ite(isNl(b, n), buf[b] == '\n', ite(isSp(b, n), buf[b] == ' ', isBaseCharacter(buf[b]))))
+
+// Where the validator's cursor stands, and what class each visited offset has.
+//@ lemma posIndex(i, b, n int)
+//@   prop C16
+//@   requires 0 <= i && i%60 == 0 && i < n && olen(i) <= b && b < olen(i) + 9
+//@   ensures isIdx(b) && idxVal(b) == dig9(i+1, b - olen(i)) && olen(i) + 9 <= olen(n) && 0 <= olen(i)
+//@ lemma posSpace(i, j, n int)
+//@   prop C16
+//@   requires 0 <= i && i%60 == 0 && 0 <= j && j < 60 && j%10 == 0 && i + j < n
+//@   ensures !isIdx(opos(i+j) - 1) && !isNl(opos(i+j) - 1, n) && isSp(opos(i+j) - 1, n) && opos(i+j) - 1 == olen(i) + 9 + 11*(j/10) && 0 <= opos(i+j) - 1 && opos(i+j) < olen(n)
+//@ lemma posResidue(g, k, n int)
+//@   prop C16
+//@   requires 0 <= g && g%10 == 0 && 0 <= k && k < 10 && g + k < n
+//@   ensures !isIdx(opos(g) + k) && !isNl(opos(g) + k, n) && !isSp(opos(g) + k, n) && opos(g) + k == opos(g + k) && opos(g) + k + 1 < olen(n)
+//@ lemma posNewline(i, n int)
+//@   prop C16
+//@   requires 0 <= i && i%60 == 0 && i < n
+//@   ensures !isIdx(olen(min(i+60, n)) - 1) && isNl(olen(min(i+60, n)) - 1, n) && olen(min(i+60, n)) <= olen(n) && 0 < olen(min(i+60, n))
+//@ lemma posGroupEnd(i, j, n int)
+//@   prop C16
+//@   requires 0 <= i && i%60 == 0 && 0 <= j && j <= 50 && j%10 == 0 && i + j < n
+//@   ensures opos(i+j) + min(10, n - (i+j)) == olen(min(i+j+10, n)) - 1 && (i+j+10 <= n ==> opos(i+j) + 10 == olen(i) + 9 + 11*((j+10)/10))
+
+// The fast validator accepts a block of the right length exactly when every byte is in place.
 //@ func validateOrigin(p []byte, length int, pos pars.Position) (err error)
 //@   prop C07 C16
-//@   requires 0 <= length && length <= 1099511627776 && len(p) == olen(length)
+//@   requires 0 <= length && length < 999999940 && len(p) == olen(length)
+//@   use olenZero(0)
+//@   ensures sound: isnil(err) ==> (forall b in 0..len(p): olayOK(p, length, b))
+//@   assigns nothing
+//@   loop 1: invariant i%60 == 0 && 0 <= i && i <= length+59 && offset == olen(min(i, length)) && offset <= len(p)
+//@   loop 1: invariant forall b in 0..offset: olayOK(p, length, b)
+//@   loop 1: use forall b: posIndex(i, b, length)
+//@   loop 1: use posIndex(i, olen(i), length)
+//@   loop 1: use posSpace(i, 0, length)
+//@   loop 1: use posNewline(i, length)
+//@   loop 1: decreases length + 60 - i
+//@   loop 2: invariant j%10 == 0 && 0 <= j && j <= 60 && i < length
+//@   loop 2: invariant offset == ite(j == 0, olen(i) + 9, ite(i+j <= length, olen(i) + 9 + 11*(j/10), olen(length) - 1)) && offset < len(p)
+//@   loop 2: invariant j > 0 ==> offset == olen(min(i+j, length)) - 1
+//@   loop 2: invariant forall b in 0..offset: olayOK(p, length, b)
+//@   loop 2: use posSpace(i, j, length)
+//@   loop 2: use posGroupEnd(i, j, length)
+//@   loop 2: use olenMonoLe(min(i+j+10, length), length)
+//@   loop 2: decreases 60 - j
+//@   loop 3: invariant 0 <= k && k <= 10 && i+j+k <= length && i+j < length && j < 60 && offset == opos(i+j) + k
+//@   loop 3: invariant forall b in 0..offset: olayOK(p, length, b)
+//@   loop 3: use posResidue(i+j, k, length)
+//@   loop 3: decreases 10 - k
+
+// ... and it accepts every block of the right length in which every byte is in place.
+//@ func validateOrigin@valid(p []byte, length int, pos pars.Position) (err error)
+//@   prop C16
+//@   requires 0 <= length && length < 999999940 && len(p) == olen(length)
+//@   requires forall b in 0..len(p): olayOK(p, length, b)
+//@   use olenZero(0)
+//@   ensures_each complete: isnil(err)
+//@   assigns nothing
+//@   loop 1: invariant i%60 == 0 && 0 <= i && i <= length+59 && offset == olen(min(i, length)) && offset <= len(p)
+//@   loop 1: use forall b: posIndex(i, b, length)
+//@   loop 1: use posIndex(i, olen(i), length)
+//@   loop 1: use posSpace(i, 0, length)
+//@   loop 1: use posNewline(i, length)
+//@   loop 1: decreases length + 60 - i
+//@   loop 2: invariant j%10 == 0 && 0 <= j && j <= 60 && i < length
+//@   loop 2: invariant offset == ite(j == 0, olen(i) + 9, ite(i+j <= length, olen(i) + 9 + 11*(j/10), olen(length) - 1)) && offset < len(p)
+//@   loop 2: invariant j > 0 ==> offset == olen(min(i+j, length)) - 1
+//@   loop 2: use posSpace(i, j, length)
+//@   loop 2: use posGroupEnd(i, j, length)
+//@   loop 2: use olenMonoLe(min(i+j+10, length), length)
+//@   loop 2: decreases 60 - j
+//@   loop 3: invariant 0 <= k && k <= 10 && i+j+k <= length && i+j < length && j < 60 && offset == opos(i+j) + k
+//@   loop 3: use posResidue(i+j, k, length)
+//@   loop 3: decreases 10 - k
